@@ -58,6 +58,30 @@ def harness_values(eng, ctx):
     eng.note({'t': 'reached'})
 
 
+def harness_int_levels(eng, ctx):
+    """Levels given as Python integers / integer arrays (water levels in whole mm): same function."""
+    sy_mod, sy, xs, ys = make_sy(eng, ctx)
+    n = eng.int('n')
+    m = eng.int('m')
+    lo, hi = xs[0], xs[-1]
+    try:
+        val = sy(n)
+        arr = sy(nplite.array([n, m]))
+        inm = sy.integrate(n, m)
+    except Exception as e:
+        eng.fail_exception(e)
+        return
+    info = libstubs._info(sy._spline._tck)
+    S = info['S']
+    want = ys[0] if n <= lo else (ys[-1] if n >= hi else symx.wrap(S(libstubs._zr(n))))
+    wantm = ys[0] if m <= lo else (ys[-1] if m >= hi else symx.wrap(S(libstubs._zr(m))))
+    eng.prove(val == want, 'C14: an integer level gives the value of the clamped function at that level')
+    eng.prove(arr[0] == want, 'C14: an integer array gives the values of the clamped function')
+    eng.prove(arr[1] == wantm, 'C14: an integer array gives the values of the clamped function')
+    eng.prove(inm == antiderivative(sy, xs, m) - antiderivative(sy, xs, n), 'C14: integral between integer limits equals the area under the clamped function')
+    eng.note({'t': 'reached'})
+
+
 def harness_integral(eng, ctx):
     sy_mod, sy, xs, ys = make_sy(eng, ctx)
     a = eng.real('a')
@@ -131,6 +155,42 @@ def replay_concrete(ctx, m, label=None):
     return not problems, info
 
 
+def replay_int_levels(ctx, m):
+    """The real SplineSpecificYield at integer levels n, m (Python ints and an int64 array) against the same
+    object evaluated at float(n), float(m), and integrate(n, m) against quadrature."""
+    import numpy as np
+    real = loader.real_module('spowtd.specific_yield')
+    xs = [float(Fraction(v)) for v in ctx['concrete_knots']]
+    ys = [float(m.get('y%d' % i, 0.5)) for i in range(len(xs))]
+    n, k = int(m.get('n', 0)), int(m.get('m', 0))
+    sy = real.SplineSpecificYield(xs, ys)
+    info = {'zeta_knots_mm': xs, 'sy_knots': ys, 'n': n, 'm': k}
+    problems = []
+    try:
+        clamp = lambda v: ys[0] if v <= xs[0] else (ys[-1] if v >= xs[-1] else float(sy(float(v))))
+        scale = max(1.0, max(abs(v) for v in ys))
+        got = [float(sy(n)), [float(v) for v in sy(np.array([n, k]))]]
+        info['sy(n)'] = got[0]
+        info['sy(array([n, m]))'] = got[1]
+        info['clamped function at n, m'] = [clamp(n), clamp(k)]
+        if abs(got[0] - clamp(n)) > 1e-9 * scale:
+            problems.append('sy(%d) = %r, the clamped function there is %r' % (n, got[0], clamp(n)))
+        if abs(got[1][0] - clamp(n)) > 1e-9 * scale or abs(got[1][1] - clamp(k)) > 1e-9 * scale:
+            problems.append('sy(array([%d, %d])) = %r, the clamped function gives %r' % (n, k, got[1], [clamp(n), clamp(k)]))
+        inm = float(sy.integrate(n, k))
+        fsy = real.SplineSpecificYield(xs, ys)
+        area = numeric_area(lambda z: clamp(z), xs[0], xs[-1], float(n), float(k))
+        info['integrate(n, m)'] = inm
+        info['area_by_quadrature'] = area
+        if abs(inm - area) > 1e-6 * scale * max(1.0, abs(n - k)):
+            problems.append('integrate(%d, %d) = %r, quadrature of the clamped function gives %r' % (n, k, inm, area))
+    except Exception as e:
+        info['real_exception'] = '%s: %s' % (type(e).__name__, e)
+        return False, info
+    info['problems'] = problems
+    return not problems, info
+
+
 KNOTS = {4: ['-300', '-100', '50', '170'], 5: ['-300', '-100', '0', '50', '170'], 6: ['-291.7', '-183.1', '-15.74', '10.65', '38.78', '168.3']}
 
 
@@ -154,6 +214,8 @@ class C14(Check):
         self.absorb(exp, need_paths=2)
         exp = symx.explore(harness_integral, {'knots': 4}, name='integrate[knots=4,symbolic]', engine_kw={'query_timeout_ms': 60000})
         self.absorb(exp, need_paths=20)
+        exp = symx.explore(harness_int_levels, {'knots': 6, 'concrete_knots': KNOTS[6]}, name='integer_levels[knots=6,concrete]', engine_kw={'query_timeout_ms': 60000})
+        self.absorb(exp, need_paths=9)
         for k in nk:
             exp = symx.explore(harness_integral, {'knots': k, 'concrete_knots': KNOTS[k], 'replay_every': 3 if quick else 2},
                                name='integrate[knots=%d,concrete]' % k, engine_kw={'query_timeout_ms': 60000})
@@ -195,7 +257,23 @@ class C14(Check):
             m.setdefault('a', m.get('v', 0))
             m.setdefault('b', 0)
             m.setdefault('c', 0)
-        ok, info = replay_concrete(ctx, m)
+        if h.startswith('integer_levels'):
+            ok, info = replay_int_levels(ctx, m)
+            if ok:
+                # the solver's model fixes n, m and an interpretation of the uninterpreted S; knot values it
+                # left at a default (all equal) make the real spline constant: retry with generic values
+                generic = dict(m)
+                generic.update({'y%d' % i: Fraction(v) for i, v in enumerate(['0.125', '0.375', '0.25', '0.625', '0.5', '0.875'])})
+                ok, info = replay_int_levels(ctx, generic)
+                info['note'] = 'knot values of the model replaced by generic ones (the model left them equal)'
+        else:
+            ok, info = replay_concrete(ctx, m)
+            if ok and 'real_exception' not in info and len({m.get('y%d' % i, 0) for i in range(k)}) == 1:
+                # as above: equal knot values make the real spline constant, whatever the model's S was
+                generic = dict(m)
+                generic.update({'y%d' % i: Fraction(v) for i, v in enumerate(['0.125', '0.375', '0.25', '0.625', '0.5', '0.875'][:k])})
+                ok, info = replay_concrete(ctx, generic)
+                info['note'] = 'knot values of the model replaced by generic ones (the model left them equal)'
         info['expected'] = failure.get('detail')
         info['label'] = failure.get('label')
         if failure.get('kind') == 'exception':
